@@ -106,7 +106,7 @@ ChainStep(S, m, o) ==
         Rm(x) == {[st |-> p, loc |-> "absent"] : p \in RmAt(x.st, x.loc)}
         Er(x) == {[st |-> p, loc |-> "absent"] : p \in ErAt(x.st, x.loc)}
     IN
-    CASE name \in {"or_insert", "or_insert_with", "or_insert_with_key", "insert",
+    CASE name \in {"or_insert", "or_insert_with", "or_insert_with_key", "or_default", "insert",
                    "v_insert", "v_insert_hashed", "v_insert_with_hasher"} -> UNION {Ins(x) : x \in S}
       [] name \in {"o_remove", "o_remove_entry"} -> UNION {Rm(x) : x \in S}
       [] name \in {"and_replace_entry_with", "o_replace_entry_with"} /\ ~some ->
